@@ -21,13 +21,16 @@
      TypesSpec.spec_check accepts, and [swt_program P = true -> wt_program P = true];
    - corollary: such a program does not go wrong (through the C02_soundness theorems).
    Fragment of the corollary ([swt_program]): the structural checks are Static's own; every
-   expression is typed by the specification and annotated with that type; every value meets a slot
-   of exactly its own type, or a slot of type any (wrapped); a literal whose elements have different
-   types is []any / {}any with every element wrapped -- i.e. no conversion of a literal to a
-   DIFFERENT type ([1] into []any, [] into []num inside an expression, [[1]] + [[]]), except the
-   empty literal [] / {} itself as the value of a declaration, an assignment, a return or an argument
-   ( x:[]num ;  x = []  ;  f []  ;  print [] ).  Those conversions are where the models are
-   compared by witnesses below. *)
+   expression is typed by the specification and annotated with that type; a value meets a slot of
+   exactly its own type, or of type any (wrapped); a literal whose elements have different types is
+   []any / {}any with every element wrapped; the empty literal [] / {} may be the value of a
+   declaration, assignment, return or argument, or an element of a literal ([[1] []]); and a value slot of a declaration, assignment, return
+   or call statement may hold a CONVERTED constant ([conv]: y:[]any ; y = [1 2 3] ,  x := [[1] ["a"]] ,
+   a := [1] + [] ): the specification accepts the source expression in the slot (checked:
+   [spec_slot]) and the tree is its elementwise conversion, the shape wrapAny builds.  Outside:
+   conversions nested inside other expression positions (the operand of an index, a range operand,
+   arguments of calls inside expressions).  Measured on the C02 run: 1785 of 1818 parser-accepted
+   programs inside. *)
 From Coq Require Import List Bool String.
 From EvyV Require Import Base Ast Sem Static SemSound StaticTypes StaticImpl.
 From EvyV Require TypesSyntax TypesSpec Types TypesProofs TypesWhole.
@@ -244,6 +247,24 @@ Theorem C02_types_ctx_generic_map : forall F G a, arg_ann (ann_ok F G) G TGenMap
 Proof. exact generic_map_spec_accepts. Qed.
 Print Assumptions C02_types_ctx_generic_map.
 
+(* a converted constant: the tree wrapAny builds is Static-typed with the slot's type ... *)
+Theorem C02_types_converted_static : forall F G A t, conv F G t A = true -> ety F G A = Some t.
+Proof. exact conv_ety. Qed.
+Print Assumptions C02_types_converted_static.
+
+(* ... and [cval] asks the specification to accept the source expression in that slot *)
+Theorem C02_types_ctx_converted : forall F G t A, cval F G t A = true ->
+  exists e st, erase G A = Some e /\ sty_of t = Some st /\
+    exists shown, Sp.spec_check (S.CAssign st) e = Sp.SAccept st shown.
+Proof. exact cval_spec_accepts. Qed.
+Print Assumptions C02_types_ctx_converted.
+
+(* arguments of a call statement: [arg_ann] or a converted value *)
+Theorem C02_types_call_statement : forall F G name sg args,
+  lookup_sig F name = Some sg -> sig_cv F G sg args = true -> call_ty F G name args = Some (fs_ret sg).
+Proof. exact sig_cv_call. Qed.
+Print Assumptions C02_types_call_statement.
+
 (* ---------- statements and programs ---------- *)
 Theorem C02_types_stmt_partial : forall F s ret il G G',
   swt_stmt F ret il G s = Some G' -> wt_stmt F ret il G s = Some G'.
@@ -441,3 +462,26 @@ Example C02_types_ex_impl :
   | None => False
   end.
 Proof. vm_compute. repeat split; reflexivity. Qed.
+
+(*  y:[]any  /  y = [1 2 3]  /  x := [[1] ["a"]]  /  a := [1] + []  /  m := {k:[4] e:[]}  /  print [[1] []] y x a m  *)
+Definition ex_conv : program :=
+  let lit t es := EArr t es in
+  let n := fun e => EAny e TNum in
+  {| p_funcs := []; p_handlers := [];
+     p_stmts :=
+       [SDecl (s_ "y") (TArr TAny) (EArr (TArr TAny) []);
+        SAssign (EVar (s_ "y") (TArr TAny)) (lit (TArr TAny) [n C02.n1; n C02.n2; n C02.n3]);
+        SDecl (s_ "x") (TArr (TArr TAny))
+          (lit (TArr (TArr TAny)) [lit (TArr TAny) [n C02.n1]; lit (TArr TAny) [EAny (EStr (s_ "a")) TStr]]);
+        SDecl (s_ "a") (TArr TNum) (EBin BPlus (TArr TNum) (lit (TArr TNum) [C02.n1]) (lit (TArr TNum) []));
+        SDecl (s_ "m") (TMap (TArr TNum))
+          (EMap (TMap (TArr TNum)) [(s_ "k", lit (TArr TNum) [C02.n3]); (s_ "e", lit (TArr TNum) [])]);
+        SCallStmt (s_ "print")
+          [EAny (lit (TArr (TArr TNum)) [lit (TArr TNum) [C02.n1]; lit (TArr TNum) []]) (TArr (TArr TNum));
+           EAny (EVar (s_ "y") (TArr TAny)) (TArr TAny);
+           EAny (EVar (s_ "x") (TArr (TArr TAny))) (TArr (TArr TAny));
+           EAny (EVar (s_ "a") (TArr TNum)) (TArr TNum);
+           EAny (EVar (s_ "m") (TMap (TArr TNum))) (TMap (TArr TNum))]] |}.
+
+Example C02_types_ex_conv : swt_program ex_conv = true /\ s2_program ex_conv = true.
+Proof. vm_compute. split; reflexivity. Qed.
